@@ -21,6 +21,7 @@ CONSTANTS
   WPriv = 100
   StateChangeNotifies = FALSE
   SlotsChangeNotifies = TRUE
+  ManagedEveryCycle = TRUE
   TaskEndNotifies = TRUE
   RequeueTail = FALSE
   TrackPerUser = TRUE
